@@ -6,9 +6,46 @@ from . import successor
 MODE_TY = "move_generation::MoveGenerationMode"
 
 
-def pure_mode_switches(b, ex):
+def mode_params(f):
+    """fn -> set of parameter locals that carry (a function of) the generation mode: parameters of the mode
+    type, and parameters that some call site feeds with an expression of mode-carrying values only."""
+    out = {}
+    for fn in f.body_names():
+        b = f.body(fn)
+        if not hasattr(b, 'arg_count'):
+            continue
+        ps = {i for i in range(1, b.arg_count + 1) if b.local_ty(i) == MODE_TY}
+        if ps:
+            out[fn] = ps
+    changed = True
+    while changed:
+        changed = False
+        for fn in list(out):
+            b = f.body(fn)
+            ex = Exprs(b)
+            for bb in b.normal:
+                t = b.term(bb)
+                if bb not in b.reachable or t["k"] != "call":
+                    continue
+                cal = callee_of(t)
+                if not cal or not f.has_body(cal):
+                    continue
+                cb = f.body(cal)
+                for i, a in enumerate(ex.call_args(bb)):
+                    if cb.local_ty(i + 1) == MODE_TY:
+                        continue
+                    leaves = [x for x in data_slice(ex, a) if x[0] in ("arg", "var", "mem", "call", "opaque", "cname", "static")]
+                    if leaves and all(x[0] == "arg" and x[1] in out[fn] for x in leaves):
+                        if i + 1 not in out.setdefault(cal, set()):
+                            out[cal].add(i + 1)
+                            changed = True
+    return out
+
+
+def pure_mode_switches(b, ex, modes=None):
     """Switch blocks whose condition is a function of the mode parameter (and constants) only."""
-    modes = [i for i in range(1, b.arg_count + 1) if b.local_ty(i) == MODE_TY]
+    if modes is None:
+        modes = [i for i in range(1, b.arg_count + 1) if b.local_ty(i) == MODE_TY]
     out = []
     if not modes:
         return out
@@ -29,9 +66,10 @@ def r13_1(ctx):
     an = successor.get(ctx)
     n = 0
     nsw = 0
+    mp = mode_params(ctx.facts)
     for f, b in an.producers.items():
         ex = Exprs(b)
-        sw = pure_mode_switches(b, ex)
+        sw = pure_mode_switches(b, ex, mp.get(f, set()))
         nsw += len(sw)
         sites = [s for s in an.sites if s.b is b]
         for site in sites:
@@ -49,7 +87,11 @@ def r13_1(ctx):
                 dep = None
                 for s in sw:
                     succs = b.succ.get(s, [])
-                    doms = [b.edge_dominates((s, t), loc[0]) or t == loc[0] for t in succs]
+                    # the event can follow one outcome of the mode test but not the other (without
+                    # re-evaluating the test): weaker than edge dominance, so that
+                    # `if kind != Queen && mode == CapturesOnly { break }` is seen although the loop
+                    # body is also entered around the mode test
+                    doms = [t == loc[0] or b.reaches(t, loc[0], removed_nodes={s}) for t in succs]
                     if any(doms) and not all(doms):
                         dep = s
                 if dep is not None:
